@@ -19,6 +19,7 @@ DEFAULT_OPTS = {
   "reset": True,
   "uu": False,               # explicit U(a) < U(b) between independent blocks
   "min_comb": 1,
+  "sloppy": 0,               # C10: probability (in 1/16) that a sub-expression is requested with a wrong width
   "translatable": False,     # stay inside what the RTLIR type checker / translators accept
   "no_sext_compound": False, # exclusion switch for the known finding "sext of a compound operand"
   "min_depth": 0,
@@ -127,6 +128,10 @@ class ClassBuilder:
     return [d(st.sampled_from(["zext", "zext", "sext"])), ["sig", ref], w]
 
   def expr(self, w, env, depth=0):
+    if self.opts["sloppy"] and depth > 0 and self.draw(st.integers(0, 15)) < self.opts["sloppy"]:
+      w = max(1, w + self.draw(st.sampled_from([-3, -2, -1, 1, 2, 3, 8])))
+    if self.opts["sloppy"] and self.draw(st.integers(0, 15)) == 0:
+      return ["cast", w, self._expr(max(1, w + self.draw(st.sampled_from([-1, 0, 0, 1, 4]))), env, depth + 1)]
     e = self._expr(w, env, depth)
     if self.opts["translatable"] and e[0] not in ("const", "lit") and _is_constant(e):
       # the RTLIR type checker folds constant-only sub-expressions and re-sizes them to the minimal
@@ -211,6 +216,12 @@ class ClassBuilder:
 
   def lit_or_expr(self, w, env, depth):
     d = self.draw
+    if self.opts["sloppy"] and d(st.integers(0, 5)) == 0:
+      k = d(st.integers(0, 5))
+      top = (1 << w) - 1
+      v = [top + 1, top + d(st.integers(1, 300)), (1 << d(st.integers(1, 100))) + d(st.integers(-1, 1)),
+           -d(st.integers(1, 9)), d(st.integers(0, top)), (1 << 53) + 1][k]
+      return ["lit", v]
     if d(st.integers(0, 3)) == 0:
       top = (1 << w) - 1
       return ["lit", d(st.one_of(st.integers(0, min(top, 9)), st.integers(0, top), st.just(top)))]
